@@ -3,14 +3,14 @@
 check against that worktree (VERIF_REPO), undo, and write meta.json + seeded/REPORT.md."""
 import json, os, re, subprocess, sys
 HERE = os.path.dirname(os.path.dirname(os.path.abspath(__file__)))
-WT = "/tmp/seedrepo"
+WT = os.environ.get("SEED_WT", "/tmp/seedrepo")
 only = sys.argv[1:]
 
 def sh(cmd, **kw):
     return subprocess.run(cmd, shell=True, capture_output=True, text=True, **kw)
 
-sh(f"git -C /repo worktree remove --force {WT}")
-assert sh(f"git -C /repo worktree add -q --detach {WT} HEAD").returncode == 0
+sh(f"flock /tmp/.wt.lock git -C /repo worktree remove --force {WT}")
+assert sh(f"flock /tmp/.wt.lock git -C /repo worktree add -q --detach {WT} HEAD").returncode == 0
 rows = []
 try:
     for d in sorted(os.listdir(os.path.join(HERE, "seeded"))):
@@ -54,7 +54,7 @@ try:
         rows.append(meta)
         print(d, meta.get("detected"), (meta.get("violation_keys") or [""])[0][:80], flush=True)
 finally:
-    sh(f"git -C /repo worktree remove --force {WT}")
+    sh(f"flock /tmp/.wt.lock git -C /repo worktree remove --force {WT}")
     # restore the evidence of the unchanged tree for the properties touched
 with open(os.path.join(HERE, "seeded", "REPORT.md"), "w") as f:
     f.write("# Seeded changes and the checks that catch them\n\n| change | files | detected by `./run <ID> quick` | first violation key |\n|---|---|---|---|\n")
